@@ -183,8 +183,8 @@ LEVEL_TEXT = ("Coq theorems about a function-by-function model of HeadersSyncSta
               "is one continuous chain from the sync start, consisting of the received second-pass headers unchanged; a release leaves "
               "exactly redownload_buffer_size accepted headers behind it unless the re-downloaded chain itself reached the minimum work; "
               "every accepted second-pass header connects, has a permitted difficulty transition and matches the next stored commitment "
-              "bit. Model tied to the real class by differential execution on synthetic peer histories.")
-LEVEL_NOTE = ("Partial: the commitment clause is proved per header (queue order), not as a statement about first-pass heights; the "
+              "bit; over a whole history the bits of all re-downloaded headers equal the first-pass bits at the same heights. Model tied to the real class by differential execution on synthetic peer histories.")
+LEVEL_NOTE = ("Partial: the "
               "proof-of-work check of released headers is net_processing's CheckHeadersPoW and is not modelled; the probability of guessing "
               "commitment bits is outside the theorems. The statement says a released header is followed by 'more than a full buffer' of "
               "re-downloaded headers: the code (and the theorem) give exactly redownload_buffer_size headers behind the last released one. "
